@@ -283,6 +283,24 @@ TRUSTED_BASE = [
     "the obligation proves the whole translation equal to the model's compiledDecide (compile_decide_src: dict policy, rules falsy or a list "
     "of dicts, dict env with a dict-or-falsy resource, compilerDefault := Src.compile_default, policy.size + 2 < fuel) and set documents "
     "delegated to Src.decide; nothing of compile / decide is hand-modelled any more",
+    "for the translated HOT RELOADER HotReloader.check_and_reload_async / _register_error / the state-creating statements of __init__ (C10; "
+    "harness/pytolean_state.py, lean/Rbacx/Model/PyReloader.lean, validated against the real methods on every C10 run by Run/SrcEvalReloader.lean + "
+    "harness/reloader_tr.py: a real HotReloader, scripted source / guard sync and async, injected clock / PRNG, dyadic values) the trusted readings "
+    "are: STATE PASSING — the fields the methods assign are a record passed in and out, `with self._lock:` is transparent (atomicity of the locked "
+    "blocks belongs to the interleaving model and the run-time lock check); READINGS AND OUTCOMES NUMBERED IN EXECUTION ORDER — time.time(), "
+    "random.uniform(-1.0, 1.0) and the designated collaborator calls (source.etag / source.load / guard.set_policy) are parameters, the k-th of a "
+    "kind along the executed path; a collaborator call is appended to the call trace, then replaced by its outcome .ok v / .error cls (BaseException "
+    "is not represented, maybe_await is part of the outcome); an exception is known by the NAME of the first class named in an except clause of the "
+    "method that it is an instance of, else by its own class name; ONLY collaborator calls and called methods raise (arithmetic, comparisons, "
+    "isinstance(x, str), `is None`, == on str / None are total on the annotated types); ABSTRACT NUMBERS — float arithmetic is an uninterpreted "
+    "structure Num T: the obligation reads it as integers of microseconds with + min max < exact, 0.2 = 200000, 0.0 = 0, x*2.0 = 2x and EVERY "
+    "OTHER PRODUCT ARBITRARY (the jitter is the model's arbitrary `jit`; nothing is claimed about float rounding), the evaluator as exact rationals, "
+    "the differential run uses dyadic values (the literal 0.2 compared within 2^-30); logger.* statements, the locals only they read and "
+    "self._src_name() are total and without effect; the PROBE `etag_attr is not None and not inspect.iscoroutinefunction(etag_attr)` is an input "
+    "and getattr(self.source, 'etag', None) is total; the range designation in __init__ (first / last statement by text prefix); Guard.set_policy "
+    "is taken to return in reloader_check (the raising case is proved separately, outside the model); field / parameter types are read off the "
+    "annotations; by hand remain the four atomic blocks and their interleaving, the sync wrapper check_and_reload, start / stop / _run_loop, "
+    "Guard.set_policy, and every source (HTTPPolicySource.load / etag included)",
 ]
 
 
